@@ -110,6 +110,7 @@ type c14Client struct {
 	numConfs  uint32
 	inclBlk   bool // registration asked for the block
 	confirmed bool // reference: Confirmed seen and no NegativeConf since
+	negSeen   bool // a NegativeConf was delivered earlier
 	done      bool
 }
 
@@ -283,13 +284,16 @@ func (w *c14World) check(c *c14Client, kind int, disconnectedIncl bool) {
 		if kind == c14KindRegister {
 			vReach("confirmed-at-registration")
 		}
-		if kind == c14KindConnect && w.maxTip > w.tipOff() {
-			vReach("confirmed-during-reorg")
+		if c.negSeen {
+			vReach("confirmed-again-after-reorg")
 		}
 	}
 
 	// NegativeConf
 	nNeg := w.readNegative(c, disconnectedIncl)
+	if nNeg > 0 {
+		c.negSeen = true
+	}
 	if disconnectedIncl && before {
 		vReach("reorg-after-confirmed")
 		vAssert(nNeg == 1, "including block disconnected after Confirmed but no (single) NegativeConf delivered")
@@ -343,7 +347,7 @@ func (w *c14World) check(c *c14Client, kind int, disconnectedIncl bool) {
 		vAssert(nDone == 1 && mature && !c.done, "Done delivered although the including block is not exactly at the reorg safety limit")
 		c.done = true
 	} else {
-		vAssert(!mature, "including block reached the reorg safety limit but Done was not delivered")
+		vAssert(c.done || !mature, "including block reached the reorg safety limit but Done was not delivered")
 	}
 }
 
